@@ -114,11 +114,17 @@ pub fn spelling_stage(prop: &'static str, mon: u32, tier: Tier) -> (Acc, Value) 
         Tier::Quick => (false, 2usize, 3usize, 8usize),
         Tier::Thorough => (true, 2, 3, 48),
     };
-    let tuples = tuple_universe(full);
+    let mut tuples = tuple_universe(full);
+    // quick tier, second pass: the FULL product of the field domains (every combination of components,
+    // 29 952 tuples) with at most one deviation from the canonical spelling
+    let first_pass = tuples.len();
+    if tier == Tier::Quick {
+        tuples.extend(tuple_universe(true));
+    }
     let se = StringEval { prop, mon };
     let acc = par_items(tuples.len(), threads(), |i, acc| {
         let t = &tuples[i];
-        let d = if i % core_stride == 0 { d_core } else { d_all };
+        let d = if i >= first_pass { 1 } else if i % core_stride == 0 { d_core } else { d_all };
         let mut seen: HashSet<u64> = HashSet::new();
         let mut canon: [Option<String>; 3] = [None, None, None];
         let mut local = Acc::new();
@@ -135,11 +141,11 @@ pub fn spelling_stage(prop: &'static str, mon: u32, tier: Tier) -> (Acc, Value) 
                 local.sample(|| json!(text));
             }
         });
-        local.add(if d == d_core { "tuples_at_core_bound" } else { "tuples_at_base_bound" }, 1);
+        local.add(if i >= first_pass { "tuples_of_the_full_product_at_one_deviation" } else if d == d_core { "tuples_at_core_bound" } else { "tuples_at_base_bound" }, 1);
         local.add("spelling_sites_of_canonical_spellings_total", max_sites as u64);
         acc.merge(local);
     });
-    let rep = json!({"engine": "B-spellings", "tuples": tuples.len(), "full_tuple_product": full, "max_deviations_all_tuples": d_all, "max_deviations_core_tuples": d_core,
+    let rep = json!({"engine": "B-spellings", "tuples": first_pass, "full_product_tuples_at_one_deviation": tuples.len() - first_pass, "full_tuple_product": full, "max_deviations_all_tuples": d_all, "max_deviations_core_tuples": d_core,
                      "core_stride": core_stride, "spellings": acc.evals, "distinct_strings_per_tuple_summed": acc.nontrivial});
     (acc, rep)
 }
@@ -150,10 +156,15 @@ pub fn fault_stage(tier: Tier) -> (Acc, Value) {
         Tier::Quick => (false, 0usize, 1usize, 8usize),
         Tier::Thorough => (true, 0, 1, 6),
     };
-    let tuples = tuple_universe(full);
+    let mut tuples = tuple_universe(full);
+    // quick tier, second pass: every fault on the canonical spelling of every tuple of the full product
+    let first_pass = tuples.len();
+    if tier == Tier::Quick {
+        tuples.extend(tuple_universe(true));
+    }
     let acc = par_items(tuples.len(), threads(), |i, acc| {
         let t = &tuples[i];
-        let d = if i % core_stride == 0 { d_core } else { d_all };
+        let d = if i >= first_pass { 0 } else if i % core_stride == 0 { d_core } else { d_all };
         let mut local = Acc::new();
         let mut seen: HashSet<u64> = HashSet::new();
         explore_spellings(t, d, None, &mut |_text, taken, _| {
@@ -187,7 +198,7 @@ pub fn fault_stage(tier: Tier) -> (Acc, Value) {
         });
         acc.merge(local);
     });
-    let rep = json!({"engine": "B-faults", "tuples": tuples.len(), "full_tuple_product": full, "spelling_deviations_all_tuples": d_all, "spelling_deviations_core_tuples": d_core,
+    let rep = json!({"engine": "B-faults", "tuples": first_pass, "full_product_tuples_canonical_spelling": tuples.len() - first_pass, "full_tuple_product": full, "spelling_deviations_all_tuples": d_all, "spelling_deviations_core_tuples": d_core,
                      "core_stride": core_stride, "faulted_strings": acc.evals, "distinct_faulted_strings_per_tuple_summed": acc.nontrivial});
     (acc, rep)
 }
